@@ -204,8 +204,64 @@ def call_features(p):
     return f
 
 
+def _blocks2(stmts, path, labels, fails, resumes, gosubs, returns):
+    """like _blocks / _gosubs with SELECT CASE blocks as part of the path (a SELECT keeps its value on the value stack while its
+    block runs, as a FOR keeps a register frame)"""
+    for s in stmts:
+        k = s["k"]
+        if s.get("fails"):
+            fails.append(list(path))
+        if k == "label":
+            labels[s["l"]] = list(path)
+        elif k == "resume" and s.get("mode") == "label":
+            resumes.append(s["l"])
+        elif k == "gosub":
+            gosubs.append(list(path))
+        elif k == "return" and s.get("l"):
+            returns.append(s["l"])
+        elif k == "if":
+            for a in s["arms"]:
+                _blocks2(a["body"], path, labels, fails, resumes, gosubs, returns)
+            _blocks2(s["els"], path, labels, fails, resumes, gosubs, returns)
+        elif k == "select":
+            for c in s["cases"]:
+                _blocks2(c["body"], path + [s["id"]], labels, fails, resumes, gosubs, returns)
+            _blocks2(s["els"], path + [s["id"]], labels, fails, resumes, gosubs, returns)
+        elif k == "for":
+            _blocks2(s["body"], path + [s["id"]], labels, fails, resumes, gosubs, returns)
+        elif k in ("while", "do"):
+            _blocks2(s["body"], path, labels, fails, resumes, gosubs, returns)
+
+
+def leaves_block_features(p):
+    """resume-label-leaves-block: a statement marked as the failing one stands in a FOR body / SELECT CASE block (of the module or
+    of a procedure) that does not contain the label a RESUME label names; return-label-leaves-block: a GOSUB stands in such a
+    block that does not contain the label of a RETURN label.  The shape of the recorded leak as the STACKS see it (C15): what
+    the left blocks keep on the register / value stack stays there, wherever the label stands"""
+    f = set()
+    labels, fails, resumes, gosubs, returns = {}, [], [], [], []
+    _blocks2(p["main"], [], labels, fails, resumes, gosubs, returns)
+    for sp in p.get("subs", []):
+        _blocks2(sp["body"], ["proc"], {}, fails, [], [], [])
+
+    def leaves(src, ls):
+        inner = [x for x in src if x != "proc"]
+        common = 0
+        while common < len(inner) and common < len(ls) and inner[common] == ls[common]:
+            common += 1
+        return len(inner) > common
+    for l in resumes:
+        if l in labels and any(leaves(fs, labels[l]) for fs in fails):
+            f.add("resume-label-leaves-block")
+    for l in returns:
+        if l in labels and any(leaves(gs, labels[l]) for gs in gosubs):
+            f.add("return-label-leaves-block")
+    return f
+
+
 def of_prog(p):
     f = set()
+    f |= leaves_block_features(p)
     f |= jump_features(p["main"])
     f |= resume_label_features(p)
     f |= return_label_features(p)
